@@ -188,3 +188,173 @@ class ModelReindex(FunctionContract):
 
 
 CONTRACTS = [ContainerReindex(), ModelReindex()]
+
+
+# ---------------------------------------------------------------------------------------------------------------
+# PandasIndexFeaturesMixin.reindex with its default arguments: what is handed to the parent class and to pandas.Series.reindex
+# ---------------------------------------------------------------------------------------------------------------
+from fsic.extensions.model import PandasIndexFeaturesMixin      # noqa: E402
+from pyvc import libspec as _libspec                              # noqa: E402
+
+
+class _PandasModel(PandasIndexFeaturesMixin, BaseModel):
+    pass
+
+
+class _Ghost:
+    def __init__(self, fn):
+        self.fn = fn
+
+    def vc_call(self, interp, args, kwargs, node):
+        return self.fn(interp, args, kwargs, node)
+
+
+class GhostSeries:
+    """Assumed contract of pandas.Series as used here: Series(data, index=labels).reindex(index=new, method=None, fill_value=f, ...).values is,
+    per new label, the datum at that label's position in `labels` if present, else f - the bounded layer exercises exactly this on real pandas."""
+
+    def __init__(self, log, args, kwargs):
+        self.made = (list(args), dict(kwargs))
+        self.reindexed = None
+        log.append(self)
+
+        def reindex(interp, a, kw, node):
+            interp.ctx.use(A('pandas.Series.reindex', 'Series(data, index=old).reindex(index=new, method=None, fill_value=f).values holds, per new label, the old '
+                                                      'datum if the label is in `old`, else f (bounded layer: real pandas)'))
+            self.reindexed = (list(a), dict(kw))
+            r = GhostSeries.__new__(GhostSeries)
+            r.made, r.reindexed, r.source = None, None, self
+            r.values = ('values-of', self)
+            return r
+        self.reindex = _Ghost(reindex)
+
+
+def _install_series_model():
+    try:
+        import pandas as pd
+    except ImportError:      # pragma: no cover
+        return None
+
+    def model_series(interp, args, kwargs, node):
+        log = getattr(interp.ctx, 'series_log', None)
+        if log is None:
+            raise _libspec.OutOfSubset('pandas.Series outside a contract that supplies its ghost')
+        return GhostSeries(log, args, kwargs)
+    _libspec._MODELS[pd.Series] = model_series
+    return pd
+
+
+_pd = _install_series_model()
+
+
+class PandasMixinReindex(FunctionContract):
+    """Default arguments (no fill method): the parent's reindex is asked once for the new span, then every variable of the result - in its
+    order, each exactly once - is assigned Series(self[name], index=self.span).reindex(index=span, method=None, fill_value=<the keyword of
+    that variable if given, else fill_value>, limit=None, tolerance=None).values, and that result object is returned; unknown variables
+    among the keywords raise KeyError exactly under strict (argument, else the object's setting) and before anything is built."""
+    qualname = 'fsic.extensions.model.PandasIndexFeaturesMixin.reindex'
+    props = ('C12',)
+
+    def scenarios(self):
+        return ['defaults', 'fill_value', 'keyword-X', 'keyword-X+fill_value', 'keyword-falsy', 'unknown-strict-arg', 'unknown-strict-object', 'unknown-lenient',
+                'unknown-lenient-arg-overrides-object']
+
+    def setup(self, interp, scenario):
+        ctx = interp.ctx
+        strict_obj = scenario in ('unknown-strict-object', 'unknown-lenient-arg-overrides-object')
+        old_span = ['a', 'b']
+        obj = SObj(_PandasModel, {'names': ['X', 'Y'], 'span': old_span, '_strict': strict_obj}, label='m')
+        e = {'parent': [], 'sets': [], 'series': [], 'scenario': scenario, 'obj': obj, 'old_span': old_span, 'data': {}}
+        ctx.series_log = e['series']
+        kw = {}
+        if 'fill_value' in scenario:
+            e['fill_value'] = SInt(ctx.fresh('fill_value', INT))
+            kw['fill_value'] = e['fill_value']
+        if 'keyword-X' in scenario:
+            e['X'] = SInt(ctx.fresh('X_fill', INT))
+            kw['X'] = e['X']
+        if scenario == 'keyword-falsy':
+            e['X'] = 0
+            kw['X'] = 0
+            e['fill_value'] = SInt(ctx.fresh('fill_value', INT))
+            kw['fill_value'] = e['fill_value']
+        if scenario.startswith('unknown'):
+            kw['Q'] = 1.0
+        if scenario == 'unknown-strict-arg':
+            kw['strict'] = True
+        if scenario == 'unknown-lenient-arg-overrides-object':
+            kw['strict'] = False
+        e['span'] = ['b', 'c', 'd']
+        e['kw'] = dict(kw)
+
+        def parent(interp_, o, args, kwargs, node):
+            e['parent'].append((o, list(args), dict(kwargs)))
+            # the result lists its variables in an order of its own: the loop must follow the result's list
+            r = SObj(_PandasModel, {'names': ['Y', 'X'], 'span': list(e['span']), '_strict': strict_obj}, label='result')
+            e['result'] = r
+            return r
+
+        def getitem(interp_, o, args, kwargs, node):
+            key = args[0]
+            if o is not e['obj']:
+                interp_.raise_(AssertionError, 'reads a variable of another object')
+            return e['data'].setdefault(key, ('data-of', key))
+
+        def setitem(interp_, o, args, kwargs, node):
+            e['sets'].append((o, args[0], args[1]))
+        interp.registry.set_calls({'fsic.core.models.BaseModel.reindex': parent,
+                                   'fsic.core.containers.VectorContainer.__getitem__': getitem,
+                                   'fsic.core.containers.VectorContainer.__setitem__': setitem})
+        if _pd is not None:
+            ctx.force_models = {_pd.Series}
+        e['inputs'] = {k: v.e for k, v in (('fill_value', e.get('fill_value')), ('X_fill', e.get('X'))) if isinstance(v, SInt)}
+        return Call([e['span']], kw, self_obj=obj, entry=e)
+
+    def post(self, interp, scenario, call, out):
+        ctx = interp.ctx
+        e = call.entry
+        must_raise = scenario in ('unknown-strict-arg', 'unknown-strict-object')
+        if out.kind == 'raise':
+            cls = exc_class(out.exc)
+            ctx.prove(z3.BoolVal(must_raise and cls is KeyError), 'raises_only_KeyError_and_only_for_unknown_variables_under_strict', 'raises',
+                      note=getattr(cls, '__name__', '?'))
+            ctx.prove(z3.BoolVal(not e['parent'] and not e['sets'] and not e['series']), 'nothing_is_built_or_assigned_before_the_rejection', 'frame')
+            ctx.cover('rejected')
+            return
+        ctx.prove(z3.BoolVal(not must_raise), 'unknown_variables_among_the_fill_keywords_are_rejected_under_strict', 'ensures')
+        if must_raise:
+            return
+        ok = len(e['parent']) == 1 and out.value is e.get('result')
+        ctx.prove(z3.BoolVal(ok), 'asks_the_parent_class_once_and_returns_that_fresh_object', 'ensures')
+        if not ok:
+            return
+        o, args, kw = e['parent'][0]
+        sp = kw.get('span', args[0] if args else None)
+        ctx.prove(z3.BoolVal(o is e['obj'] and sp is e['span']), 'parent_reindex_is_given_this_object_and_the_new_span', 'ensures')
+        names = e['result'].fields['names']
+        ctx.prove(z3.BoolVal([n for _, n, _ in e['sets']] == list(names) and all(t is e['result'] for t, _, _ in e['sets'])),
+                  'every_variable_of_the_result_is_assigned_exactly_once_in_the_result_and_nothing_else_is', 'ensures', note=str([n for _, n, _ in e['sets']]))
+        for tgt, name, val in e['sets']:
+            src = val[1] if isinstance(val, tuple) and len(val) == 2 and val[0] == 'values-of' else None
+            okv = isinstance(src, GhostSeries) and src.made is not None and src.reindexed is not None
+            ctx.prove(z3.BoolVal(okv), f'{name}:assigned_the_values_of_a_reindexed_Series', 'ensures')
+            if not okv:
+                continue
+            margs, mkw = src.made
+            data = margs[0] if margs else mkw.get('data')
+            idx = mkw.get('index', margs[1] if len(margs) > 1 else None)
+            ctx.prove(z3.BoolVal(data == ('data-of', name) and idx is e['old_span']), f'{name}:the_Series_holds_this_variable_of_the_original_indexed_by_the_old_span', 'ensures')
+            rargs, rkw = src.reindexed
+            new = rkw.get('index', rargs[0] if rargs else None)
+            ctx.prove(z3.BoolVal(new is e['span'] or (isinstance(new, list) and new == e['span'])), f'{name}:reindexed_to_the_new_span', 'ensures')
+            ctx.prove(z3.BoolVal(rkw.get('method') is None and rkw.get('limit') is None and rkw.get('tolerance') is None),
+                      f'{name}:no_fill_method_limit_or_tolerance_on_default_arguments', 'ensures')
+            fv = rkw.get('fill_value')
+            want = e['kw'][name] if name in e['kw'] else e['kw'].get('fill_value')
+            ctx.prove(z3.BoolVal(fv is want), f'{name}:fill_is_the_keyword_of_that_variable_if_given_(also_a_falsy_one)_else_fill_value', 'ensures', note=f'{fv!r} vs {want!r}')
+        ctx.prove(z3.BoolVal(e['obj'].fields['names'] == ['X', 'Y'] and e['obj'].fields['span'] is e['old_span'] and e['old_span'] == ['a', 'b']),
+                  'original_object_unchanged', 'frame')
+        ctx.cover('returned')
+
+
+CONTRACTS.append(PandasMixinReindex())
